@@ -716,6 +716,10 @@ func init() {
 		return &basetypes.MsgUpdateProjectFee{Authority: auth(a), Fee: coinP("uregen", big.NewInt(5))}
 	})
 	regKind("AddBridgeChain", true, func(g *Gen, a *Actor, v *Snapshot, mode int) sdk.Msg {
+		if g.R.Chance(0.25) {
+			// the message only asks for a non-empty name
+			return &basetypes.MsgAddAllowedBridgeChain{Authority: auth(a), ChainName: Pick(g.R, oddChainNames)}
+		}
 		return &basetypes.MsgAddAllowedBridgeChain{Authority: auth(a), ChainName: Pick(g.R, chainSpellings)}
 	})
 	regKind("RemoveBridgeChain", true, func(g *Gen, a *Actor, v *Snapshot, mode int) sdk.Msg {
@@ -1241,6 +1245,8 @@ var refIDs = []string{"VCS-001", "VCS-002", "R1", "BR-7", "R10", "r1", "VCS-0010
 
 var chainSpellings = []string{"polygon", "Polygon", "POLYGON", "ethereum", "Ethereum", "celo", "kava", "Kava", "Osmosis-link"}
 
+var oddChainNames = []string{"Polygon.PoS", "axelar/eth", "\u00fcn\u00ef-chain", "a-chain-name-that-is-longer-than-32-bytes", " leading", "-dash", "x"}
+
 func ethAddr(i int) string   { return fmt.Sprintf("0x%040x", 0xabc000+i) }
 func ethTxHash(i int) string { return fmt.Sprintf("0x%064x", 0x7a0000+i) }
 
@@ -1259,7 +1265,7 @@ func lookalike(n string) (string, bool) {
 }
 
 func (g *Gen) chainName(v *Snapshot, mode int) string {
-	if len(v.BridgeChains) > 0 && ((mode != ModeValid && g.R.Chance(0.3)) || g.R.Chance(0.08)) {
+	if len(v.BridgeChains) > 0 && ((mode != ModeValid && g.R.Chance(0.3)) || g.R.Chance(0.14)) {
 		if l, ok := lookalike(v.BridgeChains[g.R.Intn(len(v.BridgeChains))].ChainName); ok {
 			g.W.Probe("chain_name_unicode_lookalike")
 			return l
